@@ -84,6 +84,14 @@ def c04mpp : Drv where
     match ws with
     | ["new"] => (Mpp.init, "ok")
     | ["part", i, v, n, k, t, c, g, e] => go (.part (nat! i) (nat! v) (nat! n) (optNat k) (nat! t) (nat! c) (nat! g) (e == "1"))
+    | ["recv", i, v, n, k, t, c, g, e, oc, h, al, ks, pd, vok, mc] =>
+      -- the whole receive path (Model.receive = runStages over the stage order generated from the Rust text) on the CURRENT
+      -- accumulator; the state is left as it is (the `part` line that follows carries the change)
+      let ksv : Option Nat := if ks == "none" then none else if ks == "ok" then some 1 else some 2
+      let inp : RecvIn := ⟨(nat! i), (nat! v), (nat! n), optNat k, (nat! t), (nat! c), (nat! g), e == "1", (nat! oc), (nat! h), al == "1", ksv, pd == "1", 1, vok == "1", optNat mc⟩
+      let r := receive (fun p => p) inp s
+      (s, match r.2.2 with | some why => showOuts r.2.1 why | none => showOuts r.2.1 (stepWhy s inp.op))
+    | ["restart"] => (restartState s, "none")
     | ["routing", ks, pd] =>
       -- ks: none | ok (the onion's keysend preimage hashes to the payment hash) | bad; pd: 1 = the onion carries payment_data
       let r := match ks with
